@@ -218,7 +218,8 @@ class iname_encode_into(Contract):
               ValueError: lambda cx, **p: zint(p['offset']) + 1 + tlsize(p['markers'][key(p['self'], 'encoded_length')]) +
               zint(p['markers'][key(p['self'], 'encoded_length')]) > zint(p['wire'].length)}
     loops = {1: LoopSpec(_enc_inv, ghost=_enc_ghost,
-                         havoc={'cover_start': _enc_havoc_state, 'digest_buf': lambda it, env, g: env['digest_buf']})}
+                         havoc={'cover_start': _enc_havoc_state, 'digest_buf': lambda it, env, g: env['digest_buf']},
+                         abstracts=('sig_cover_part',))}        # the covered list is re-built by _enc_havoc_state (ghost g['covered'])
 
     def setup(self, cx):
         run = cx.run
